@@ -838,4 +838,170 @@ theorem traverseNode_cl {g : Graph} (H : Hyp g) (w : Nat) (s : State) (next prev
         rw [hat] at h3
         exact Post.of_same h2 (h3.evs _)
 
+def pcFailed : Pc → Bool
+  | .failed => true
+  | _ => false
+
+theorem pcC_of_nonTest {g : Graph} {w : Nat} {s : State} (h : (s.wd w).pc.isTest = false) : PcC g w s := by
+  intro n ph dir uid tag wait hh
+  rw [hh] at h; simp [Pc.isTest] at h
+
+theorem iter_cl {g : Graph} (H : Hyp g) (w : Nat) (s : State) (hw : w < s.workers.length) (hcls : ClsIn g s)
+    (l : Loc g w s) (k : Walk g w s) : Post g w s (iter g s w) := by
+  unfold iter
+  dsimp only
+  split
+  · split
+    · -- the worker leaves
+      refine ⟨fr_setWd w s _, loc_setWd _ hw l ?_, fun _ => walk_setWd _ hw (Or.inl rfl) ?_, Or.inl ?_⟩
+      · intro x hx; simp at hx
+      · intro x hx; simp at hx
+      · apply pcC_of_nonTest
+        show ((s.setWd w _).wd w).pc.isTest = false
+        rw [wd_setWd_eq s w _ hw]; rfl
+    · exact Post.raise l [] _
+  · cases hl : (s.wd w).path.getLast? with
+    | none => exact Post.raise l [] _
+    | some next =>
+      dsimp only
+      split
+      · rename_i hlen
+        have hlen' : (s.wd w).path.length = 1 := by simpa using hlen
+        obtain ⟨a, ha⟩ := List.length_eq_one_iff.mp hlen'
+        have hdn : PShape g (s.wd w).path true := by rw [ha]; exact .one a
+        cases hp : pickChild g s next w with
+        | none => exact Post.raise l [] _
+        | some r => obtain ⟨c, s2⟩ := r; exact post_pushChild H hw l k hl hdn hp []
+      · by_cases hocc : isOccupied g s next w = true
+        · -- bounce
+          simp only [hocc, if_true]
+          refine post_reset H _ ?hw0 ?q l (by intro _; rfl) (by intro _; exact Or.inr rfl) ?hpc _ _
+          case q =>
+            split
+            · refine Quiet.trans ?_ (quiet_setWd w _ _ (by intro _; rfl))
+              split
+              · exact (quiet_setNd w s next _).1
+              · exact Quiet.refl w s
+            · exact quiet_setWd w s _ (by intro _; rfl)
+          case hw0 =>
+            split
+            · split
+              · rw [workers_length_setWd]; exact hw
+              · rw [workers_length_setWd]; exact hw
+            · rw [workers_length_setWd]; exact hw
+          case hpc =>
+            split
+            · split
+              · exact (same_setWd w _ _ (by intro _; rfl) (by intro _; rfl)).2.trans (quiet_setNd w s next _).2
+              · exact (same_setWd w _ _ (by intro _; rfl) (by intro _; rfl)).2
+            · exact (same_setWd w _ _ (by intro _; rfl) (by intro _; rfl)).2
+        · have hocc' : isOccupied g s next w = false := by simpa using hocc
+          simp only [hocc', Bool.false_eq_true, if_false]
+          by_cases hready : isSetupReady g s next w = true
+          · simp only [hready, if_true, Bool.not_true, Bool.false_eq_true, if_false]
+            split
+            · exact traverseNode_cl H w s next _ .up hw hcls l k hl (fun h => by cases h)
+            · rename_i hnc
+              split
+              · refine traverseNode_cl H w s next _ .down hw hcls l k hl (fun _ => ?_)
+                obtain ⟨d, hd⟩ : ∃ d, PShape g (s.wd w).path d := by
+                  rcases k.sh with h | h
+                  · rw [h] at hl; simp at hl
+                  · exact h
+                exact hd.allDown next hl (by simpa using hnc)
+              · exact Post.raise l [] _
+          · have hready' : isSetupReady g s next w = false := by simpa using hready
+            simp only [hready', Bool.false_eq_true, if_false, Bool.not_false, if_true]
+            split
+            · cases hp : pickParent g s next w with
+              | none => exact Post.raise l [] _
+              | some r => obtain ⟨c, s2⟩ := r; exact post_pushParent H hw l k hl hp []
+            · split
+              · cases hp : pickParent g s next w with
+                | none => exact Post.raise l [] _
+                | some r => obtain ⟨c, s2⟩ := r; exact post_pushParent H hw l k hl hp []
+              · exact Post.raise l [] _
+
+theorem same_reveal (w : Nat) (g : Graph) (s : State) (f v : Nat) : Same w s (reveal g s f v) := by
+  unfold reveal
+  dsimp only
+  split
+  · exact ⟨⟨fun _ => rfl, rfl, fun _ _ => rfl, fun h => h, rfl, rfl⟩, rfl⟩
+  · refine ⟨⟨fun _ => rfl, rfl, fun _ _ => rfl, fun h => ?_, rfl, rfl⟩, rfl⟩
+    show s.hidden.filter _ = []
+    rw [h]; rfl
+
+theorem same_prepare (w : Nat) (g : Graph) (s : State) : Same w s (prepare g s w) := by
+  unfold prepare
+  dsimp only
+  cases (s.wd w).path.getLast? with
+  | none => exact Same.refl w s
+  | some next =>
+    dsimp only
+    have h0 : Same w s (s.setWd w (fun d => { d with unexplored := !(unexploredNodes (vis g s) s).isEmpty })) :=
+      same_setWd w s _ (fun _ => rfl) (fun _ => rfl)
+    split
+    · exact h0.trans (same_reveal w g _ next w)
+    · exact h0
+
+/-- one iteration on a pre-parsed graph -/
+theorem iterL_cl {g : Graph} (H : Hyp g) (w : Nat) (s : State) (hw : w < s.workers.length) (hcls : ClsIn g s)
+    (hh : s.hidden = []) (l : Loc g w s) (k : Walk g w s) : Post g w s (iterL g s w) := by
+  unfold iterL
+  split
+  · rw [vis_of_nil g s hh]
+    exact iter_cl H w s hw hcls l k
+  · dsimp only
+    have h0 := same_prepare w g s
+    rw [vis_of_nil g _ (h0.1.hid hh)]
+    exact Post.of_same h0 (iter_cl H w _ (by rw [h0.1.wl]; exact hw) (fun n hn => by rw [h0.1.rl]; exact hcls n hn)
+      (h0.1.loc l) (h0.1.walk k))
+
+theorem pc_setWd_pc (s : State) (w : Nat) (pc : Pc) (hw : w < s.workers.length) :
+    ((s.setWd w (fun d => { d with pc := pc })).wd w).pc = pc := by
+  rw [wd_setWd_eq s w _ hw]
+
+/-- the loop up to the next suspension -/
+theorem runLoop_cl {g : Graph} (H : Hyp g) (w : Nat) (fuel : Nat) (s : State) (evs : List Event)
+    (hw : w < s.workers.length) (hcls : ClsIn g s) (hh : s.hidden = []) (l : Loc g w s) (k : Walk g w s)
+    (hpc : PcC g w s ∨ 0 < fuel) :
+    Fr w s (runLoop g w fuel s evs).1 ∧ Loc g w (runLoop g w fuel s evs).1 ∧
+      (Walk g w (runLoop g w fuel s evs).1 ∨ pcFailed ((runLoop g w fuel s evs).1.wd w).pc = true) ∧
+      PcC g w (runLoop g w fuel s evs).1 := by
+  induction fuel generalizing s evs with
+  | zero =>
+    unfold runLoop
+    exact ⟨Fr.refl w s, l, Or.inl k, hpc.resolve_right (by omega)⟩
+  | succ fuel ih =>
+    unfold runLoop
+    dsimp only
+    have h0 : Quiet w s (s.setWd w (fun d => { d with pc := .loop })) := quiet_setWd w s _ (fun _ => rfl)
+    have hp0 : ((s.setWd w (fun d => { d with pc := .loop })).wd w).pc = .loop := pc_setWd_pc s w .loop hw
+    have hw0 : w < (s.setWd w (fun d => { d with pc := .loop })).workers.length := by rw [h0.wl]; exact hw
+    have hp := iterL_cl H w _ hw0 (fun n hn => by rw [h0.rl]; exact hcls n hn) (h0.hid hh) (h0.loc l) (h0.walk k)
+    rcases hi : iterL g (s.setWd w (fun d => { d with pc := .loop })) w with ⟨s1, e, f⟩
+    rw [hi] at hp
+    obtain ⟨p1, p2, p3, p4⟩ := hp
+    have hpc1 : PcC g w s1 := by
+      rcases p4 with h | h
+      · exact h
+      · apply pcC_of_nonTest
+        have h' : (s1.wd w).pc = .loop := h.trans hp0
+        rw [h']; rfl
+    have hfr : Fr w s s1 := h0.fr.trans p1
+    have hw1 : w < s1.workers.length := by rw [hfr.wl]; exact hw
+    cases f with
+    | cont =>
+      dsimp only
+      obtain ⟨q1, q2, q3, q4⟩ := ih s1 (evs ++ e) hw1 (fun n hn => by rw [hfr.rl]; exact hcls n hn) (hfr.hid hh) p2 (p3 rfl)
+        (Or.inl hpc1)
+      exact ⟨hfr.trans q1, q2, q3, q4⟩
+    | suspend => exact ⟨hfr, p2, Or.inl (p3 rfl), hpc1⟩
+    | exit => exact ⟨hfr, p2, Or.inl (p3 rfl), hpc1⟩
+    | raise what =>
+      dsimp only
+      have h2 : Quiet w s1 (s1.setWd w (fun d => { d with pc := .failed })) := quiet_setWd w s1 _ (fun _ => rfl)
+      have hpf := pc_setWd_pc s1 w .failed hw1
+      refine ⟨hfr.trans h2.fr, h2.loc p2, Or.inr (by rw [hpf]; rfl), pcC_of_nonTest (by rw [hpf]; rfl)⟩
+
 end I2N.Trav.Clean
